@@ -379,4 +379,80 @@ def flowReportOf (counter : Nat) (s₂ : Schedule) : RShared :=
 
 def flowReport (i : FlowIn) (s₂ : Schedule) : RShared := flowReportOf (flowCopy i).counter s₂
 
+/-! ## Tunnel.Start interleaved with Tunnel.Close
+
+`Tunnel.Start` (internal/client/tunnel/tunnel.go) as its atomic steps: the `manager.Ctx()`
+interface call, `SetCtx` (one `currentLock` section: binds a fresh live context and resets the
+latch, unless a context is already bound), the `Connecting→Connected` CAS (on failure Start
+returns an error), the spawn of `monitorPeerNotification`, `monitorTimeout` (5-minute timer) and
+`runDataCopy`.  Thread 0 is the starter, the others are closers (the repaired `Tunnel.Close`:
+load, CAS, close sequence, final store).  The close sequence's `Dispose.Close` cancels the
+context only if one is bound and the latch is open.  The monitors end when the context is
+cancelled, the copy ends when the connections are closed.
+`StartOrder.casFirst` is the rejected variant "CAS, then manager.Ctx(), then SetCtx". -/
+
+inductive StartOrder | setCtxFirst | casFirst
+  deriving DecidableEq, Repr
+
+structure UShared where
+  state : Nat
+  disposed : Bool         -- Dispose.closed
+  ctxBound : Bool
+  ctxCancelled : Bool
+  spawned : Bool          -- monitors and copy goroutine started
+  startRes : Nat          -- Start: 0 not returned, 1 nil, 2 error
+  closes : Nat            -- close sequences run (onClosed calls)
+  deriving DecidableEq, Repr
+
+inductive UPc | sMgr | sSet | sCas | sSpawn | load | cas | body | fin | done
+  deriving DecidableEq, Repr
+
+structure ULocal where
+  pc : UPc
+  seen : Nat
+  deriving DecidableEq, Repr
+
+def uStep (ord : StartOrder) (_tid : Nat) (sh : UShared) (l : ULocal) : UShared × ULocal :=
+  match l.pc with
+  | .sMgr => (sh, { l with pc := .sSet })
+  | .sSet =>
+    (if sh.ctxBound then sh else { sh with ctxBound := true, ctxCancelled := false, disposed := false },
+     { l with pc := match ord with | .setCtxFirst => .sCas | .casFirst => .sSpawn })
+  | .sCas =>
+    if sh.state = 0 then
+      ({ sh with state := 1 }, { l with pc := match ord with | .setCtxFirst => .sSpawn | .casFirst => .sMgr })
+    else ({ sh with startRes := 2 }, { l with pc := .done })
+  | .sSpawn => ({ sh with spawned := true, startRes := 1 }, { l with pc := .done })
+  | .load =>
+    if 2 ≤ sh.state then (sh, { l with pc := .done, seen := sh.state })
+    else (sh, { l with pc := .cas, seen := sh.state })
+  | .cas =>
+    if sh.state = l.seen then ({ sh with state := 2 }, { l with pc := .body })
+    else (sh, { l with pc := .load })
+  | .body =>
+    (if sh.disposed then { sh with closes := sh.closes + 1 }
+     else { sh with closes := sh.closes + 1, disposed := true, ctxCancelled := sh.ctxCancelled || sh.ctxBound },
+     { l with pc := .fin })
+  | .fin => ({ sh with state := 3 }, { l with pc := .done })
+  | .done => (sh, l)
+
+def uProg (ord : StartOrder) : Prog UShared ULocal := ⟨uStep ord⟩
+
+/-- Thread 0 = `Start`, threads 1…n = closers; the tunnel is `Connecting`. -/
+def uInit (ord : StartOrder) (n : Nat) : Cfg UShared ULocal :=
+  ⟨⟨0, false, false, false, false, 0, 0⟩,
+   ⟨match ord with | .setCtxFirst => .sMgr | .casFirst => .sCas, 0⟩ :: List.replicate n ⟨.load, 0⟩⟩
+
+def uWeight (sh : UShared) (l : ULocal) : Nat :=
+  match l.pc with
+  | .sMgr => 4 | .sSet => 3 | .sCas => 2 | .sSpawn => 1
+  | .load => if sh.state = 0 then 8 else if sh.state = 1 then 6 else 1
+  | .cas => if 2 ≤ sh.state then 2 else if l.seen = sh.state then (if sh.state = 0 then 7 else 5) else 7
+  | .body => 3 | .fin => 2 | .done => 0
+
+def uMu (c : Cfg UShared ULocal) : Nat := (c.ths.map (uWeight c.sh)).sum
+
+def uFinal (ord : StartOrder) (n : Nat) (s : Schedule) : Cfg UShared ULocal :=
+  run (uProg ord) (s ++ rounds (n + 1) (8 * n + 5)) (uInit ord n)
+
 end Tunnox.C16
